@@ -34,6 +34,94 @@ def known_functions():
         return json.load(f)
 
 
+KNOWN_ADTS = os.path.join(HERE, "known_adts.json")
+
+
+def rename_fields(facts):
+    """A struct / enum variant of the reference tree whose fields kept their number, order and types but not their
+    names had its fields renamed: give them their old names back everywhere they are projected, constructed or listed, so
+    that the rules (which name fields) keep deciding the same code.  Returns [(adt, variant, new name, old name)]."""
+    try:
+        with open(KNOWN_ADTS) as f:
+            known = json.load(f)
+    except OSError:
+        return []
+    ren = {}
+    out = []
+    for a in facts["adts"]:
+        k = known.get(a["path"])
+        if not k:
+            continue
+        for v in a["variants"]:
+            old = k.get(v["name"])
+            if old is None or len(old) != len(v["fields"]):
+                continue
+            names_now = [fl["name"] for fl in v["fields"]]
+            names_old = [o[0] for o in old]
+            if names_now == names_old:
+                continue
+            if [fl["ty"] for fl in v["fields"]] != [o[1] for o in old]:
+                continue  # fields were reordered or retyped: not a plain rename
+            for fl, o in zip(v["fields"], old):
+                if fl["name"] != o[0]:
+                    ren[(a["path"], v["name"], fl["name"])] = o[0]
+                    out.append((a["path"], v["name"], fl["name"], o[0]))
+                    fl["name"] = o[0]
+    if not ren:
+        return []
+
+    def fix_place(p):
+        for e in p.get("p", []):
+            if isinstance(e, dict) and "n" in e and "of" in e:
+                o = ren.get((e["of"], e.get("ofv"), e["n"]))
+                if o is not None:
+                    e["n"] = o
+
+    def fix_op(o):
+        if isinstance(o, dict):
+            q = o.get("copy") or o.get("move")
+            if q is not None:
+                fix_place(q)
+
+    for j in facts["bodies"]:
+        for d in j.get("debug", []):
+            if "l" in d.get("val", {}):
+                fix_place(d["val"])
+        for blk in j["blocks"]:
+            for st in blk["stmts"]:
+                if "lhs" not in st:
+                    continue
+                fix_place(st["lhs"])
+                rv = st["rv"]
+                for kk in ("a", "b"):
+                    if kk in rv and isinstance(rv[kk], dict):
+                        fix_op(rv[kk])
+                for o in rv.get("ops", []):
+                    fix_op(o)
+                if "p" in rv and isinstance(rv["p"], dict):
+                    fix_place(rv["p"])
+                if rv.get("k") == "agg" and rv.get("agg") == "adt" and rv.get("fields"):
+                    rv["fields"] = [ren.get((rv["adt"], rv.get("variant") or _only_variant(facts, rv["adt"]), n), n) for n in rv["fields"]]
+            t = blk["term"]
+            for kk in ("discr", "cond", "indirect"):
+                if kk in t and isinstance(t[kk], dict):
+                    fix_op(t[kk])
+            for o in t.get("args", []) + t.get("aops", []):
+                fix_op(o)
+            if "dest" in t:
+                fix_place(t["dest"])
+            if t["k"] == "drop":
+                fix_place(t["p"])
+    return out
+
+
+def _only_variant(facts, adt):
+    for a in facts["adts"]:
+        if a["path"] == adt and len(a["variants"]) == 1:
+            return a["variants"][0]["name"]
+    return None
+
+
 def _parent_path(key):
     return key.rsplit("::", 1)[0] if "::" in key else ""
 
@@ -58,14 +146,34 @@ def rename_anchors(facts, known):
         # renamed in place (same impl / module, same signature), or moved elsewhere under the same name
         cands[m] = [n for n in new if _parent_path(n) == _parent_path(m) and sig(present[n]) == known[m]] or \
                    [n for n in new if n.rsplit("::", 1)[-1] == m.rsplit("::", 1)[-1] and sig(present[n]) == known[m]]
+    # several candidates with one signature (three `unsafe fn(self) -> u32` helpers renamed together): tell them apart by
+    # who calls them
+    try:
+        with open(os.path.join(HERE, "known_callers.json")) as fh:
+            known_callers = json.load(fh)
+    except OSError:
+        known_callers = {}
+    callers_now = {}
+    for j in facts["bodies"]:
+        owner = j["key"] if j["kind"] == "fn" else (j.get("parent") or j["key"])
+        for blk in j["blocks"]:
+            t = blk["term"]
+            if t["k"] in ("call", "tailcall") and t.get("callee") in present:
+                callers_now.setdefault(t["callee"], set()).add(j["key"])
+    for m, cs in list(cands.items()):
+        if len(cs) > 1 and m in known_callers:
+            want = set(known_callers[m])
+            narrowed = [n for n in cs if callers_now.get(n, set()) == want]
+            if len(narrowed) == 1:
+                cands[m] = narrowed
     pairs = []
+    taken = {}
     for m, cs in cands.items():
-        if len(cs) != 1:
-            continue
-        n = cs[0]
-        if sum(1 for m2, cs2 in cands.items() if n in cs2) != 1:
-            continue
-        pairs.append((n, m))
+        if len(cs) == 1:
+            taken.setdefault(cs[0], []).append(m)
+    for m, cs in cands.items():
+        if len(cs) == 1 and len(taken.get(cs[0], [])) == 1:
+            pairs.append((cs[0], m))
     if not pairs:
         return []
     ren = dict(pairs)
@@ -649,6 +757,7 @@ def apply(facts, known=None):
     if known is None:
         known = known_functions()
     facts["renamed"] = [{"now": n, "anchor": m} for n, m in rename_anchors(facts, known)]
+    facts["renamed_fields"] = [{"adt": a, "variant": v, "now": n, "anchor": o} for a, v, n, o in rename_fields(facts)]
     helpers = helpers_of(facts, known)
     facts["inlined"] = []
     if not helpers:
